@@ -120,6 +120,14 @@ def c_sjoin(rng):
             els.append([fc[2 * k] + dx, fc[2 * k + 1] + dy])
         else:
             els.append(gen.element('point', rng))
+    if els and rng.random() < 0.15:
+        # a left frame longer than the default page size of its spatial index (512): hundreds of missing points, or
+        # of points far away from every right shape, before / after / around the interesting rows
+        m = rng.choice([513, 1100, 1600, 2100])
+        pad = [None] * m if rng.random() < 0.6 else [[1000.0 + i, 2000.0 + (i % 7)] for i in range(m)]
+        cut = rng.choice([0, len(els), rng.randint(0, len(els))])
+        k = rng.choice([0, m, rng.randint(0, m)])
+        els = pad[:k] + els[:cut] + pad[k:] + els[cut:]
     pts = gen.Case('point', els, [])
     nl, nr = len(pts.view), len(rs.view)
     if nl == 0 or nr == 0:
